@@ -446,6 +446,7 @@ func (p *parseVisitor) VisitSaveFromAccount(c *parser2.SaveFromAccountContext) *
 		}
 	}
 	p.PushAddress(*addr)
+	monAddr := addr
 
 	typ, addr, compErr = p.VisitExpr(c.GetAcc(), false)
 	if compErr != nil {
@@ -456,6 +457,8 @@ func (p *parseVisitor) VisitSaveFromAccount(c *parser2.SaveFromAccountContext) *
 			"save monetary from account: the second expression should be of type 'account' instead of '%s'", typ))
 	}
 	p.PushAddress(*addr)
+	// the balance that is saved from must be tracked, whether or not the account is a source elsewhere
+	p.setNeededBalances(map[machine.Address]struct{}{*addr: {}}, monAddr)
 
 	p.AppendInstruction(program2.OP_SAVE)
 
